@@ -1,5 +1,6 @@
 import JunoModel.C16.ProofsObs
 import JunoModel.C16.ProofsMig
+import JunoModel.C16.ProofsMigStep
 /-!
 C16 — Pruning never damages retained blocks, the head state, or L1-unconfirmed history.
 Property theorems (statements only; lemmas are in `Proofs*.lean`). Every theorem of this module is an
@@ -82,6 +83,19 @@ theorem floor_bound_head (c : Cfg) (hc : c.l2Clamps = true) (s : St) (op : Op) (
   · rw [e]; omega
   · omega
 
+/-- Whole histories, by the CURRENT head: after any legal history the floor is at most the highest
+`local head - retained` the node had at a moment one of the history's operations was taken (or the floor it started
+with) — whatever block numbers the new-head events carried. -/
+theorem floor_bound_head_history (c : Cfg) (hc : c.l2Clamps = true) :
+    ∀ (ops : List Op) (s : St), Reach c s → LegalRun c s ops →
+      effFloor (run c s ops) ≤ max (effFloor s) (maxHeadBound c s ops)
+  | [], _, _, _ => by simp [run, maxHeadBound]
+  | op :: ops, s, R, L => by
+    have h1 := floor_bound_head c hc s op R L.1
+    have ih := floor_bound_head_history c hc ops _ (Reach.step op R L.1) L.2
+    simp only [run, maxHeadBound]
+    omega
+
 /-! ## min_age -/
 
 /-- The min-age sample is right: on non-decreasing block timestamps `FindOldestBlockAtOrAfter` returns
@@ -94,16 +108,90 @@ theorem min_age_sample_spec (ts : Nat → Nat) (lower upper cutoff : Nat) (hm : 
     | none => ∀ i, i ≤ upper → ts i < cutoff :=
   findOldest_spec ts lower upper cutoff hm hbelow
 
-/-- THE MIN-AGE CLAUSE. With a minimum age configured and non-decreasing block timestamps, in EVERY
-reachable state every block below the retention floor is older than the minimum age: its timestamp is
-before `now - minAge`. The sample is not an input: it is what `seedFloor` / the ticker's `sampleHeight`
-(binary search over the stored headers) / the end of a prune compute from the timestamps `c.ts` and the
+/-- THE MIN-AGE CLAUSE, on the chain as first offered (no fork switch: `s.chain.fork = 0`; this is the statement
+of the earlier rounds, whose model had one chain only). With a minimum age configured and non-decreasing block
+timestamps, in EVERY reachable state every block below the retention floor is older than the minimum age: its
+timestamp is before `now - minAge`. The sample is not an input: it is what `seedFloor` / the ticker's
+`sampleHeight` (binary search over the stored headers) / the end of a prune compute from the timestamps and the
 clock; the "deep catch-up" bypass of `onNewBlock` is taken exactly when the event's block is itself older
 than the minimum age; the clock only advances; the migration computes its own floor the same way. Covers
-interruption and restart (re-seeded sample) at any point. -/
-theorem min_age_respected (c : Cfg) (hma : c.minAge = true) (hm : Mono c.ts) (s : St) (R : Reach c s) :
-    ∀ n, n < effFloor s → c.ts n < s.cutoff :=
-  age_of_reach R hm hma
+interruption and restart (re-seeded sample) at any point, reverts and re-stores of the same blocks. -/
+theorem min_age_respected (c : Cfg) (hma : c.minAge = true) (hm : Mono c.ts) (s : St) (R : Reach c s)
+    (h0 : s.chain.fork = 0) : ∀ n, n < effFloor s → c.ts n < s.cutoff :=
+  age_of_reach R hm hma h0
+
+/-- PARTIAL — the min-age clause THROUGH REORGS (`Op.fork`: the network switches to another fork above the node's
+head, any number of times; the blocks of a fork carry their own timestamps `Cfg.forkTs`; `s.tsAt c n` is the
+timestamp of the block that is — or was, when it was pruned — number `n` of the node's chain). With non-decreasing
+timestamps along the first chain, along every fork taken so far (`ForksMono`) and across every fork point
+(`chain.mono`): every block below the retention floor is older than the minimum age, PROVIDED no fork switch
+put a block younger than the minimum age at a height between the node's head and the CACHED sample
+(`chain.fresh`; true in particular whenever the sample ticker fired — or the node restarted — between the revert
+below the sample and the switch: `reorg_with_tick_keeps_young_blocks`).
+What is missing: `stale_min_age_sample_after_reorg` (the code in /repo uses the cached sample as it is). -/
+theorem min_age_respected_reorg_partial (c : Cfg) (hma : c.minAge = true) (hm : Mono c.ts) (s : St)
+    (R : Reach c s) (hmf : ForksMono c s) (hj : s.chain.mono = true) (hf : s.chain.fresh = true) :
+    ∀ n, n < effFloor s → s.tsAt c n < s.cutoff :=
+  age_of_reach_forks R hm hmf hma hj (Or.inr hf)
+
+/-- FULL STRENGTH through reorgs with the proposed `refreshStaleSample`
+(proposed-fixes/C16-stale-min-age-sample-after-reorg.diff, `Cfg.sampleChecked`: before the cached sample is used the
+block right below it must still be there and older than the minimum age, else the sample is derived again from
+the oldest retained block): no assumption on when the ticker fires or what the forks bring. -/
+theorem min_age_respected_reorg_checked (c : Cfg) (hc : c.sampleChecked = true) (hma : c.minAge = true)
+    (hm : Mono c.ts) (s : St) (R : Reach c s) (hmf : ForksMono c s) (hj : s.chain.mono = true) :
+    ∀ n, n < effFloor s → s.tsAt c n < s.cutoff :=
+  age_of_reach_forks R hm hmf hma hj (Or.inl hc)
+
+/-- The code in /repo with a minimum age; block `n` of the first chain has timestamp `n`, block `n` of every
+other fork `1000 + n`. -/
+def reorgCfg : Cfg :=
+  { retained := 0, l2PerPrune := 1, minAge := true, legacy := true, fixed := true, migSkipsMissing := true,
+    migZeroNoop := true, l2Clamps := true, ts := fun n => n, forkTs := fun _ n => 1000 + n }
+/-- 6 blocks; the clock: cut-off 100 (all 6 blocks are older than the minimum age); the node (re)starts: the cached
+sample is the head, 5; the head is reverted to 2; the network switches to a fork whose blocks 3', 4', … have
+timestamps 1003, 1004, … — younger than the minimum age; five of them are stored (head 7); L1 head 5. No tick. -/
+def reorgOps : List Op :=
+  [.crash true, .store, .store, .store, .store, .store, .store, .advance 100, .crash true,
+   .revert, .revert, .revert, .fork, .store, .store, .store, .store, .store, .writeL1 5, .evL1 5]
+
+/-- NEGATION (genuine defect of the code in /repo; known finding
+`min-age-floor-above-young-block-after-reorg-below-cached-sample`): the history is legal, timestamps never
+decrease, yet `onNewL1Head` takes `min(cached sample 5, 5 - 0) = 5` for the floor and the prune deletes blocks 3'
+and 4' of the new fork, which are younger than the minimum age (timestamps 1003, 1004 ≥ cut-off 100). The cache
+vouched for the block NUMBERS 3 and 4; nothing lowers it when the chain is reverted below it
+(`sampleHeight` only ever searches upwards from the cached value, and no tick fired while the head was below it). -/
+theorem stale_min_age_sample_after_reorg :
+    let s := run reorgCfg St.init (reorgOps ++ [.flush 5, .finish])
+    Reach reorgCfg s ∧ Mono reorgCfg.ts ∧ (∀ f, Mono (reorgCfg.forkTs f)) ∧ s.chain.mono = true ∧
+    s.cutoff = 100 ∧ effFloor s = 5 ∧ lo s.db = 5 ∧ s.tsAt reorgCfg 3 = 1003 ∧ s.tsAt reorgCfg 4 = 1004 ∧
+    s.chain.fresh = false :=
+  ⟨reach_run Reach.init _ (by decide), fun i j h => h, fun _ i j h => by show 1000 + i ≤ 1000 + j; omega,
+   by decide, by decide, by decide, by decide, by decide, by decide, by decide⟩
+
+/-- The same history when the sample ticker fires once while the head is below the cached sample (`sampleHeight`:
+the search window `[5, 2]` is empty, the sample drops to the head 2) and once after the fork is stored (the
+search from 2 finds 3', the first young block): `chain.fresh` holds, the floor stops at 3 — what
+`min_age_respected_reorg_partial` says — and blocks 3', 4' stay readable. -/
+theorem reorg_with_tick_keeps_young_blocks :
+    let ops : List Op :=
+      [.crash true, .store, .store, .store, .store, .store, .store, .advance 100, .crash true,
+       .revert, .revert, .revert, .tick, .fork, .store, .store, .store, .store, .store, .tick, .writeL1 5, .evL1 5,
+       .flush 3, .finish]
+    let s := run reorgCfg St.init ops
+    Reach reorgCfg s ∧ s.chain.mono = true ∧ s.chain.fresh = true ∧ s.chain.fork = 1 ∧ effFloor s = 3 ∧
+    answer reorgCfg s .blockByNumber 3 = .ok ∧ answer reorgCfg s .stateAtNumber 4 = .ok :=
+  ⟨reach_run Reach.init _ (by decide), by decide, by decide, by decide, by decide, by decide, by decide⟩
+
+/-- The history of `stale_min_age_sample_after_reorg` (no tick) on the code with the proposed
+`refreshStaleSample`: block 4' right below the cached sample 5 is younger than the minimum age, the sample is
+derived again (3), the prune stops at 3. -/
+theorem reorg_without_tick_checked_keeps_young_blocks :
+    let c : Cfg := { reorgCfg with sampleChecked := true }
+    let s := run c St.init (reorgOps ++ [.flush 3, .finish])
+    Reach c s ∧ s.chain.fresh = false ∧ effFloor s = 3 ∧ lo s.db = 3 ∧ s.mem.sampled = 3 ∧
+    answer c s .blockByNumber 3 = .ok :=
+  ⟨reach_run Reach.init _ (by decide), by decide, by decide, by decide, by decide, by decide⟩
 
 /-! ## floor_monotone -/
 
@@ -152,6 +240,20 @@ theorem state_one_below_floor (c : Cfg) (s : St) (R : Reach c s) (h : Nat) (hh :
   have I := inv_reach R
   unfold Inv at I; rw [hh] at I; obtain ⟨a, IA, _⟩ := I
   exact stateAtNumber_below hh IA n hseed (by unfold effFloor at hn; rw [lo_of_inv hh IA] at hn; exact hn) hle
+
+/-- The pruned database opened WITHOUT prune mode (unseeded `RetentionFloor`, `Op.crash false`: no pruner, readers
+probe the header and the hash→number mapping): historical state by number is served from one block below the
+durable floor upwards, and refused more than one block below it (the mapping is gone) — the same answers the
+seeded floor gives. -/
+theorem state_unseeded_floor (c : Cfg) (hf : c.fixed = true) (s : St) (R : Reach c s) (h : Nat)
+    (hh : s.db.height = some h) (hu : s.mem.floorState = 0) (n : Nat) (hle : n ≤ h) :
+    (lo s.db ≤ n + 1 → answer c s .stateAtNumber n = .ok) ∧
+    (n + 1 < lo s.db → answer c s .stateAtNumber n = .notfound) := by
+  have I := inv_reach R
+  unfold Inv at I; rw [hh] at I; obtain ⟨a, IA, _⟩ := I
+  rw [lo_of_inv hh IA]
+  exact ⟨fun hn => stateAtNumber_unseeded_fixed hh IA hf hu n hn hle,
+    fun hn => stateAtNumber_unseeded_far_below hh hu n (h2n_below IA hf n hn)⟩
 
 /-- Relative to the DURABLE floor (what survives a crash at any point): every block at or above it is
 complete, the probe is truthful, and state by block hash works from one block below it (the
@@ -535,6 +637,62 @@ theorem migration_handles_zero_cutoff_and_unchanged_slot :
      answer c1 (run c1 St.init ops) .requireRetained 1 = .pruned) :=
   ⟨reach_run Reach.init _ (by decide), by decide, reach_run Reach.init _ (by decide), by decide⟩
 
+/-! ## The migration's resume bookkeeping, small-step (ModelMigStep.lean)
+
+`MigStep.Reach c orig s`: `s` is reachable from a never-migrated node by ANY sequence of starts of `Migrate` (each
+reading the token the runner holds), single batch writes of the stager / restorer workers in any order,
+cancellations inside either phase (the returned token is recorded), kills at any point (the token on disk
+stays — also: the run returned but the runner's commit was lost), completions. `orig n`: retained block `n` has
+legacy history entries; `s.live n`: they are in the live buckets; `s.scratch n`: staged copy. -/
+
+/-- FULL STRENGTH with the restaging marker (proposed-fixes/C16-historyprunner-restage-marker.diff), for every
+cut-off `1 ≤ k ≤ h`, every set of blocks with history, every interleaving: (1) at EVERY moment a copy of every
+history entry of a retained block exists (live or staged) — no kill point loses data; (2) once the runner has
+recorded the migration as applied, every entry is back in the live buckets. -/
+theorem restage_marker_keeps_history (c : MigStep.Cfg) (orig : Nat → Bool) (hm : c.marker = true) (hk : 1 ≤ c.k)
+    (hkh : c.k ≤ c.h) (s : MigStep.St) (R : MigStep.Reach c orig s) :
+    (∀ n, c.k ≤ n → n ≤ c.h → orig n = true → s.live n = true ∨ s.scratch n = true) ∧
+    (s.done = true → ∀ n, c.k ≤ n → n ≤ c.h → orig n = true → s.live n = true) := by
+  have I := MigStep.inv_reach c orig hm hk hkh R
+  exact ⟨I.safe, fun hd => (I.fin hd).1⟩
+
+/-- Cut-off 2, head 5, every retained block has history entries. Start 1 stages blocks 2, 3 and is cancelled (token
+(4,0) recorded); start 2 resumes at 4, completes — its result is never recorded; start 3 finds the token above the
+cut-off and an empty scratch space, stages again from 2 — the worker holding block 4 writes first — and is
+killed; start 4 trusts the token (the scratch space is not empty), stages 4, 5, wipes the live history, restores,
+and the runner records "applied". -/
+def restageOps : List MigStep.Op :=
+  [.start, .stage 2, .stage 3, .cancelStager 4,
+   .start, .stage 4, .stage 5, .stagerDone, .restore 2, .restore 3, .restore 4, .restore 5, .restorerDone, .kill,
+   .start, .stage 4, .kill,
+   .start, .stage 4, .stage 5, .stagerDone, .restore 2, .restore 3, .restore 4, .restore 5, .restorerDone, .record]
+
+/-- NEGATION (genuine defect of the code in /repo; known finding
+`migration-loses-history-after-interrupted-restage`): without the marker that history ends "applied" with the
+history entries of blocks 2 and 3 gone for good (neither live nor staged). -/
+theorem restage_interrupted_loses_history :
+    let c : MigStep.Cfg := { k := 2, h := 5, marker := false }
+    let orig : Nat → Bool := fun n => decide (2 ≤ n ∧ n ≤ 5)
+    let s := MigStep.run c (MigStep.init orig) restageOps
+    MigStep.Reach c orig s ∧ s.done = true ∧ s.live 2 = false ∧ s.live 3 = false ∧ s.scratch 2 = false ∧
+    s.live 4 = true ∧ s.live 5 = true :=
+  ⟨MigStep.reach_run _ _ MigStep.Reach.init _, by decide, by decide, by decide, by decide, by decide, by decide⟩
+
+/-- With the marker start 3 leaves the marker behind, start 4 therefore stages again from the cut-off (its workers
+have to stage 2 and 3 as well before `setupBeforeRestorer` runs) and everything comes back. -/
+theorem restage_interrupted_with_marker_complete :
+    let c : MigStep.Cfg := { k := 2, h := 5, marker := true }
+    let orig : Nat → Bool := fun n => decide (2 ≤ n ∧ n ≤ 5)
+    let ops : List MigStep.Op :=
+      [.start, .stage 2, .stage 3, .cancelStager 4,
+       .start, .stage 4, .stage 5, .stagerDone, .restore 2, .restore 3, .restore 4, .restore 5, .restorerDone, .kill,
+       .start, .stage 4, .kill,
+       .start, .stage 4, .stage 5, .stage 3, .stage 2, .stagerDone, .restore 2, .restore 3, .restore 4, .restore 5,
+       .restorerDone, .record]
+    let s := MigStep.run c (MigStep.init orig) ops
+    s.done = true ∧ s.live 2 = true ∧ s.live 3 = true ∧ s.live 4 = true ∧ s.live 5 = true ∧ s.mark = false := by
+  decide
+
 /-! ## Non-vacuity -/
 
 -- a reachable state in which a prune has completed and moved both floors (hypotheses of the theorems hold)
@@ -547,6 +705,11 @@ example : effFloor (run repairedCfg St.init
 example : Reach repairedCfg (run repairedCfg St.init
     [.crash true, .store, .store, .store, .store, .store, .writeL1 3, .evL1 3, .flush 1, .crash true]) :=
   reach_run Reach.init _ (by decide)
+-- an unseeded process on a pruned database (hypotheses of `state_unseeded_floor`)
+example : (run repairedCfg St.init
+    [.crash true, .store, .store, .store, .store, .store, .writeL1 3, .evL1 3, .flush 3, .finish, .crash false]).mem.floorState = 0 ∧
+  lo (run repairedCfg St.init
+    [.crash true, .store, .store, .store, .store, .store, .writeL1 3, .evL1 3, .flush 3, .finish, .crash false]).db = 3 := by decide
 -- min-age: timestamps 10·n, cut-off 35: the ticker samples block 4, an L1 head at 6 prunes only to 4
 def ageCfg : Cfg := { repairedCfg with minAge := true, ts := fun n => 10 * n }
 def ageOps : List Op :=
